@@ -8,7 +8,8 @@ Sub-checks (case["k"]):
   fix    gapic.generator.formatter.fix_whitespace on grammar layouts and perturbed real emitted files:
          non-blank lines unchanged (rstrip), idempotent, exactly one final newline, AST unchanged up to
          whitespace inside string constants
-  e2e    API whose comments come from the text grammar -> generate -> every .py compiles
+  e2e    API whose comments come from the text grammar (plain branch, quotes, tabs) on every element kind -> generate ->
+         every .py compiles -> import -> the words of each comment appear in order in the docstring of its class / method
 """
 import ast, json, os, re
 from hypothesis import strategies as st
@@ -18,7 +19,7 @@ from harness.engine import Violation, HarnessError
 
 ID = "C20"
 LEVEL = "exploration"
-SHRINK = {"quick": True, "thorough": True}
+SHRINK = {"quick": False, "thorough": True}
 RULE = ("Hypothesis over a grammar of comment texts (words, punctuation, quotes, backslashes, long tokens; "
         "separators: spaces, runs, newlines, blank lines, tabs, colons, list markers) x width in [20,120], "
         "indent < width, offset < width; over docstring embedding forms scanned from the templates; over a "
@@ -75,8 +76,19 @@ def _fix_case(draw):
     return {"k": "fix", "src": draw(textgen.source_layout())}
 
 
+@st.composite
+def _e2e_case(draw):
+    from harness import strategies as S
+    prof = S.profile(max_methods=3, max_services=1, max_messages=3, max_fields=4, max_files=1, p_comment=0.85, rich_comments=True,
+                     comment_quotes=True, comment_backslash=False, p_http=0.3, p_sig=0.2, p_routing=0.0, p_paged=0.1, p_lro=0.1, p_stream=0.1)
+    api = draw(S.apis(prof))
+    return {"k": "e2e", "api": api, "options": {"params": ["autogen-snippets=False"], "transport": "grpc", "snippets": False}}
+
+
 def strategy(tier):
-    return st.one_of(_wrap_case(), _wrap_case(), _rst_case(), _doc_case(), _fix_case(), _fix_case())
+    # about one end-to-end library (comments on every element kind -> generate -> import -> docstrings) per 400 cheap cases
+    cheap = st.one_of(_wrap_case(), _wrap_case(), _rst_case(), _doc_case(), _fix_case(), _fix_case())
+    return st.integers(0, 400).flatmap(lambda i: _e2e_case() if i == 0 else cheap)
 
 
 # ---------------------------------------------------------------------------
@@ -197,6 +209,16 @@ def run_case(case, rec):
     common.setup_gapic()
     k = case["k"]
     rec.cls("sub:" + k)
+    if k == "e2e":
+        from props import common_gen as G
+        from props.c01 import static_checks
+        api, options = case["api"], case["options"]
+        with common.scratch("c20") as d:
+            res, req = G.generate_checked(api, options, d, rec, ID)
+            static_checks(res, api, options)
+            G.run_exerciser(ID, api, options, {}, res, req, d, rec)
+        rec.nontrivial(["e2e", G.shape_classes(api)])
+        return
     if k == "wrap":
         from gapic.utils.lines import wrap
         text, width, indent, offset = case["text"], case["width"], case["indent"], case["offset"]
